@@ -1,5 +1,5 @@
 export VERIF_REPLAY_TARGET=/var/tmp/verif-replay-target-bg
-for p in C01 C02 C03 C05 C06 C07 C08 C09 C10 C12 C13 C14 C15 C16 C17 C19 C20; do
+for p in C01 C02 C03 C04 C05 C06 C07 C08 C09 C10 C12 C13 C14 C15 C16 C17 C19 C20; do
   ./check $p --tier thorough > thorough_$p.log 2>&1; echo "$p exit=$?"
   python3 -c "
 import json,sys
